@@ -376,21 +376,163 @@ Proof.
     + unfold pend_ifaces, all_ifaces; cbn. rewrite flat_map_app. cbn. rewrite !app_nil_r. exact I7.
 Qed.
 
+(* ---------------------------------------------------------------- entity ids: counted, not checked *)
+Definition cnt (l : list string) (x : string) : nat := count_occ string_dec l x.
+
+Lemma cnt_app : forall a b x, cnt (a ++ b) x = (cnt a x + cnt b x)%nat.
+Proof. intros. apply count_occ_app. Qed.
+Definition one (a x : string) : nat := if string_dec a x then 1%nat else 0%nat.
+Lemma cnt_cons' : forall a l x, cnt (a :: l) x = (one a x + cnt l x)%nat.
+Proof. intros. unfold cnt, one. cbn. destruct (string_dec a x); lia. Qed.
+Lemma cnt_nil : forall x, cnt [] x = 0%nat.
+Proof. reflexivity. Qed.
+Arguments cnt : simpl never.
+Ltac cnt_simpl := repeat (rewrite ?map_app, ?flat_map_app, ?app_nil_r, ?cnt_app, ?cnt_cons', ?cnt_nil).
+
+Definition ids_msgs (ms : list msg) : list string :=
+  map (fun m => e_id (m_ent m)) ms ++ flat_map (fun m => map sig_id (msg_sigs m)) ms.
+
+Lemma ids_msgs_app : forall a b x, cnt (ids_msgs (a ++ b)) x = (cnt (ids_msgs a) x + cnt (ids_msgs b) x)%nat.
+Proof. intros. unfold ids_msgs. rewrite map_app, flat_map_app, !cnt_app. lia. Qed.
+
+Definition state_ids (st : bstate) : list string :=
+  net_ids (bs_net st)
+  ++ match bs_bus st with Some b => e_id (b_ent b) :: ids_msgs (flat_map if_msgs (b_ifaces b)) | None => [] end
+  ++ match bs_iface st with Some i => ids_msgs (if_msgs i) | None => [] end
+  ++ match bs_msg st with Some m => ids_msgs [m] | None => [] end.
+
+Lemma add_value_all : forall vals cur vs, fold_opt add_value cur vals = Some vs -> vs = cur ++ vals.
+Proof.
+  induction vals as [|v r IH]; intros cur vs H; cbn in H.
+  - inversion H. now rewrite app_nil_r.
+  - unfold add_value in H at 1. destruct (existsb _ _); [discriminate|]. destruct (memb _ _); [discriminate|].
+    rewrite (IH _ _ H), <- app_assoc. reflexivity.
+Qed.
+
+Lemma flat_sig_flat : forall l, (forall x, In x l -> is_flat x = true) -> flat_map sig_flat l = l.
+Proof.
+  induction l as [|s r IH]; intros H; cbn; auto.
+  rewrite IH by (intros; apply H; now right).
+  assert (F : is_flat s = true) by (apply H; now left). destruct s; try discriminate; reflexivity.
+Qed.
+
+Lemma msg_pre_sigs : forall ev m, msg_pre ev m -> map sig_id (msg_sigs m) = map sig_id (m_signals m).
+Proof.
+  intros ev m P. unfold msg_sigs. rewrite flat_sig_flat by (intros x Hx; apply (mp_okb ev m P x Hx)).
+  rewrite dedup_key_id; auto. apply (mp_ids ev m P).
+Qed.
+
+Lemma cnt_layout_insert : forall l s pos x,
+  cnt (map sig_id (layout_insert l s pos)) x = (cnt (map sig_id l) x + one (sig_id s) x)%nat.
+Proof.
+  induction l as [|t r IH]; intros s pos x; cbn [layout_insert map].
+  - rewrite sig_id_set_pos. cnt_simpl. lia.
+  - destruct (sig_pos t >? pos); cbn [map].
+    + rewrite sig_id_set_pos. cnt_simpl. lia.
+    + cnt_simpl. rewrite IH. lia.
+Qed.
+
+Ltac cnt_norm := unfold state_ids, net_ids, ids_msgs, enum_key, node_key, type_key, unit_key, builder_key; cbn; unfold enum_key, node_key, type_key, unit_key, builder_key; cnt_simpl; cbn; cnt_simpl.
+
+Lemma step_ids : forall st o st', Inv st -> step st o = Some st' ->
+  forall x, cnt (state_ids st') x = (cnt (state_ids st) x + cnt (op_ids o) x)%nat.
+Proof.
+  intros st o st' I H x.
+  destruct o as [e b|t|u|e vals minsize|e id ifcount asg|cb|hdr asg|s asg pos|node number|recs|e baud builder asg| |];
+    unfold step in H.
+  - destruct (defs_phase st); [|discriminate]. cbn in H. destruct (new_attr e b) as [a|] eqn:Ea; [|discriminate].
+    inversion H; subst st'; clear H.
+    assert (Ek : attr_key a = e_id e).
+    { destruct b as [d|d mn mx hx|d mn mx|d vs]; cbn in Ea.
+      - inversion Ea; reflexivity.
+      - destruct (_ || _); [discriminate|]. inversion Ea; reflexivity.
+      - destruct (_ || _); [discriminate|]. inversion Ea; reflexivity.
+      - destruct vs; [discriminate|]. inversion Ea; reflexivity. }
+    cnt_norm. rewrite Ek. lia.
+  - destruct (defs_phase st); [|discriminate]. cbn in H. destruct (st_size t <? 1); [discriminate|].
+    inversion H; subst st'; clear H. cnt_norm. lia.
+  - destruct (defs_phase st); [|discriminate]. cbn in H.
+    inversion H; subst st'; clear H. cnt_norm. lia.
+  - destruct (defs_phase st); [|discriminate]. cbn in H. destruct (fold_opt add_value [] vals) as [vs|] eqn:Ev; [|discriminate].
+    inversion H; subst st'; clear H. apply add_value_all in Ev. cbn in Ev. subst vs.
+    cnt_norm. lia.
+  - destruct (defs_phase st); [|discriminate]. cbn in H. destruct (assign_all _ asg) as [a|]; [|discriminate].
+    inversion H; subst st'; clear H. cnt_norm. lia.
+  - inversion H; subst st'; clear H. cnt_norm. lia.
+  - destruct (bs_msg st) eqn:Em; [discriminate|]. destruct (m_size hdr <? 0); [discriminate|].
+    destruct (assign_all _ asg) as [a|]; [|discriminate]. inversion H; subst st'; clear H.
+    unfold state_ids. cbn [bs_net bs_bus bs_iface bs_msg]. rewrite Em. rewrite !cnt_app. unfold ids_msgs, msg_sigs. cbn. cnt_simpl. lia.
+  - destruct (bs_msg st) as [m|] eqn:Em; [|discriminate].
+    destruct (negb (is_flat s)) eqn:Ef; [discriminate|]. apply negb_false_iff in Ef.
+    destruct (negb (refs_resolve _ s)) eqn:Er; [discriminate|]. apply negb_false_iff in Er.
+    destruct (memb (sig_id s) _) eqn:Eid; [discriminate|].
+    destruct (assign_all _ asg) as [a|] eqn:Ea; [|discriminate].
+    destruct (msg_insert_signal _ _ _ _ _) as [sigs|] eqn:Eins; [|discriminate].
+    pose proof (step_inv st (OInsertSignal s asg pos) st' I) as I'.
+    inversion H; subst st'; clear H.
+    assert (J : Inv {| bs_net := bs_net st; bs_bus := bs_bus st; bs_iface := bs_iface st;
+                       bs_msg := Some {| m_ent := m_ent m; m_id := m_id m; m_size := m_size m; m_static := m_static m;
+                                         m_has_static := m_has_static m; m_prio := m_prio m; m_bo := m_bo m;
+                                         m_cycle := m_cycle m; m_send := m_send m; m_delay := m_delay m;
+                                         m_startdelay := m_startdelay m; m_receivers := m_receivers m;
+                                         m_signals := sigs; m_attrs := m_attrs m |} |}).
+    { apply I'. unfold step. rewrite Em, Ef, Er, Eid, Ea, Eins. reflexivity. }
+    pose proof (iv_msg _ I) as P0. rewrite Em in P0. pose proof (iv_msg _ J) as P1. cbn in P1.
+    unfold state_ids. cbn [bs_net bs_bus bs_iface bs_msg]. rewrite Em. unfold ids_msgs. cbn [map flat_map].
+    rewrite (msg_pre_sigs _ _ P0), (msg_pre_sigs _ _ P1). cbn [m_signals m_ent op_ids].
+    unfold msg_insert_signal in Eins. destruct (memb (sig_name _) _); [discriminate|]. destruct (names_clash _ _); [discriminate|].
+    apply bind_ok in Eins. destruct Eins as ([] & _ & Eins). inversion Eins; subst sigs.
+    cnt_simpl. rewrite cnt_layout_insert.
+    destruct (set_attrs_facts s a) as (_ & F2 & _). rewrite F2. cnt_simpl. lia.
+  - destruct (bs_iface st) eqn:Ei; [discriminate|]. destruct (find_key node_key node _); [|discriminate].
+    destruct (_ || _); [discriminate|]. inversion H; subst st'; clear H.
+    unfold state_ids. cbn [bs_net bs_bus bs_iface bs_msg]. rewrite Ei. rewrite !cnt_app. unfold ids_msgs. cbn. cnt_simpl. lia.
+  - destruct (bs_iface st) as [i|] eqn:Ei; [|discriminate]. destruct (bs_msg st) as [m|] eqn:Em; [|discriminate].
+    destruct (add_sent_message _ m); [|discriminate]. destruct (foldM _ _ _) as [rs|]; [|discriminate].
+    inversion H; subst st'; clear H.
+    unfold state_ids. cbn [bs_net bs_bus bs_iface bs_msg]. rewrite Ei, Em. cbn [if_msgs]. rewrite !cnt_app, ids_msgs_app. unfold ids_msgs, msg_sigs. cbn. cnt_simpl. lia.
+  - destruct (bs_bus st) eqn:Eb; [discriminate|]. destruct (find_key builder_key builder _); [|discriminate].
+    destruct (assign_all _ asg); [|discriminate]. inversion H; subst st'; clear H.
+    unfold state_ids. cbn [bs_net bs_bus bs_iface bs_msg]. rewrite Eb. cbn [b_ent b_ifaces flat_map]. rewrite !cnt_app. unfold ids_msgs. cbn. cnt_simpl. lia.
+  - destruct (bs_bus st) as [b|] eqn:Eb; [|discriminate]. destruct (bs_iface st) as [i|] eqn:Ei; [|discriminate].
+    destruct (bs_msg st) eqn:Em; [discriminate|]. destruct (existsb _ _); [discriminate|].
+    destruct (add_node_interface _ _ i) as [cur|] eqn:Ea; [|discriminate]. inversion H; subst st'; clear H.
+    unfold add_node_interface in Ea. destruct (memb _ _); [discriminate|]. destruct (existsb _ _); [discriminate|].
+    destruct (negb _); [discriminate|]. destruct (negb _); [discriminate|]. inversion Ea; subst cur.
+    unfold state_ids. cbn [bs_net bs_bus bs_iface bs_msg]. rewrite Eb, Ei, Em. cbn [b_ent b_ifaces]. rewrite flat_map_app. cbn [flat_map]. rewrite !app_nil_r.
+    rewrite !cnt_app, !cnt_cons', ids_msgs_app, ?cnt_nil. lia.
+  - destruct (bs_bus st) as [b|] eqn:Eb; [|discriminate]. destruct (bs_iface st) eqn:Ei; [discriminate|].
+    destruct (bs_msg st) eqn:Em; [discriminate|]. destruct (memb _ _); [discriminate|]. inversion H; subst st'; clear H.
+    unfold state_ids. cbn. rewrite Eb, Ei, Em. unfold net_ids, ids_msgs. cbn. cnt_simpl. cbn. cnt_simpl. lia.
+Qed.
+
+Lemma fold_ids : forall ops st st', Inv st -> fold_opt step st ops = Some st' ->
+  Inv st' /\ forall x, cnt (state_ids st') x = (cnt (state_ids st) x + cnt (flat_map op_ids ops) x)%nat.
+Proof.
+  induction ops as [|o r IH]; intros st st' I H; cbn in H.
+  - inversion H; subst. split; [auto|]. intros x. cbn [flat_map]. rewrite cnt_nil. lia.
+  - destruct (step st o) as [st1|] eqn:E; [|discriminate].
+    pose proof (step_inv _ _ _ I E) as I1. destruct (IH _ _ I1 H) as [I2 C]. split; auto.
+    intros x. rewrite C, (step_ids _ _ _ I E x). cbn. rewrite cnt_app. lia.
+Qed.
+
 (* ---------------------------------------------------------------- the theorem *)
 Lemma init_inv : forall e, Inv (init e).
 Proof.
   intros e. constructor; cbn; auto; try (now constructor); intros b [].
 Qed.
 
-Theorem built_wf_lemma : forall e ops n, build e ops = Some n -> wfb n = true.
+Theorem built_wf_lemma : forall e ops n, build e ops = Some n -> ids_fresh e ops -> wfb n = true.
 Proof.
-  intros e ops n H. unfold build in H.
-  destruct (fold_opt step (init e) ops) as [st|] eqn:E; [|discriminate].
-  destruct (nodupb (net_ids (bs_net st))) eqn:Hids; [|discriminate]. inversion H; subst n; clear H.
-  assert (I : Inv st).
-  { eapply (fold_opt_inv step Inv); [| |exact E].
-    - intros; eapply step_inv; eauto.
-    - apply init_inv. }
+  intros e ops n H Hfresh. unfold build in H.
+  destruct (fold_opt step (init e) ops) as [st|] eqn:E; [|discriminate]. inversion H; subst n; clear H.
+  destruct (fold_ids _ _ _ (init_inv e) E) as [I C].
+  assert (Hids : nodupb (net_ids (bs_net st)) = true).
+  { apply nodupb_NoDup. apply (NoDup_count_occ string_dec). intros x.
+    unfold ids_fresh, supplied_ids in Hfresh. rewrite (NoDup_count_occ string_dec) in Hfresh. specialize (Hfresh x).
+    specialize (C x). unfold state_ids in C. rewrite cnt_app in C. cbn in C. rewrite !cnt_cons', !cnt_nil in C.
+    fold (cnt (e_id e :: flat_map op_ids ops) x) in Hfresh. rewrite cnt_cons' in Hfresh.
+    fold (cnt (net_ids (bs_net st)) x). lia. }
   destruct I as [I1 I2 I3 I4 I5 I6 I7 I8 I9 I10].
   unfold wfb, wfb_gen. rewrite Hids, I6, I1, I2, I3, I4. cbn. rewrite !andb_true_r.
   apply andb_true_iff; split.
@@ -421,13 +563,13 @@ Definition ex_ops : list op :=
     OAddNodeInterface;
     OAddBus ].
 
-Example build_example :
+Example build_example : ids_fresh (ex_ent "net" "net") ex_ops /\
   match build (ex_ent "net" "net") ex_ops with
   | Some n => List.length (n_buses n) = 1%nat /\
               map (fun s => sig_pos s) (flat_map m_signals (flat_map if_msgs (flat_map b_ifaces (n_buses n)))) = [0; 8]
   | None => False
   end.
-Proof. vm_compute. split; reflexivity. Qed.
+Proof. split; [unfold ids_fresh; apply nodupb_NoDup; vm_compute; reflexivity|]. vm_compute. split; reflexivity. Qed.
 
 (* a refused call: the second signal overlaps the first *)
 Example build_refuses_overlap :
@@ -444,8 +586,8 @@ Proof. vm_compute. reflexivity. Qed.
 (* the round trip for every built network: `wfb` is discharged, only the value ranges of the save format remain *)
 From Acme.C12 Require Import Save Proj Domain ProofsRT8.
 Theorem built_load_save_lemma : forall now e ops n,
-  build e ops = Some n -> in_domain n = true ->
+  build e ops = Some n -> ids_fresh e ops -> in_domain n = true ->
   load now (save n) = Ok (canon n) /\ proj (canon n) = proj n.
 Proof.
-  intros now e ops n Hb Hd. apply load_save_lemma; auto. eapply built_wf_lemma; eauto.
+  intros now e ops n Hb Hf Hd. apply load_save_lemma; auto. eapply built_wf_lemma; eauto.
 Qed.
